@@ -157,6 +157,18 @@ def eval_scenario(sc, res: Result | None = None):
         return [(f'raise-{type(e).__name__}', f'{type(e).__name__}: {e}')], ('raise', type(e).__name__), 0, 0
     states = np.asarray(tr.states)
     inner = np.asarray(tr.inner_states)
+    # the caller's radius argument is reused for a second call: it must be unchanged and give the same answer
+    import copy
+
+    if isinstance(spec, dict) and spec != dict(radius_modes(labels))[sc['mode']]:
+        viols.append(('site-radius-argument-modified-by-the-call', f'passed {dict(radius_modes(labels))[sc["mode"]]} now {spec}'))
+    try:
+        traj2 = concretise.make_trajectory(full, species, M)
+        tr2 = traj2.transitions_between_sites(sites, 'Li', site_radius=spec, site_inner_fraction=f)
+        if not np.array_equal(np.asarray(tr2.states), states) or not np.array_equal(np.asarray(tr2.inner_states), inner):
+            viols.append(('second-call-with-the-same-radius-argument-differs', f'mode {sc["mode"]} f={f}'))
+    except Exception as e:  # noqa: BLE001
+        viols.append((f'second-call-raise-{type(e).__name__}', str(e)))
     if states.shape != (T, N) or inner.shape != (T, N):
         return [('state-shape-wrong', f'{states.shape} vs {(T, N)}')], ('shape',), 0, 0
     D = geom.dist_matrix(pts, site_frac, M)  # (K, S)
